@@ -48,9 +48,11 @@ type AbsState struct {
 	Opts       map[string]json.RawMessage    `json:"opts,omitempty"` // current option records by name
 	Trackers   map[string]TrackerRec         `json:"trackers"`
 	Domains    map[string]DomRec             `json:"domains"`
-	Nonce      map[string]int64              `json:"nonce"` // keeper_ sequence
-	Code       map[string]int64              `json:"code"`  // contract code length by owner
-	Bad        []string                      `json:"bad"`   // amounts that are negative or >= 2^30, with their keys
+	Nonce      map[string]int64              `json:"nonce"`    // keeper_ sequence
+	Code       map[string]int64              `json:"code"`     // 1 when the account's keeper record carries a non-empty code hash
+	EvmStore   map[string]map[string]string  `json:"evmStore"` // contract -> slot (hex) -> value (hex)
+	EvmCode    map[string]int64              `json:"evmCode"`  // code hash (hex) -> code length
+	Bad        []string                      `json:"bad"`      // amounts that are negative or >= 2^30, with their keys
 	Unknown    []string                      `json:"unknown"`
 	Other      map[string]string             `json:"other,omitempty"`
 }
@@ -212,7 +214,7 @@ func ProjectDump(g *Genesis, dump []KV) *AbsState {
 		RwBal: map[string]int64{}, RwWd: map[string]int64{}, Status: map[string]StatusRec{}, Frozen: map[string]FrozenRec{},
 		Requests: map[string]ReqRec{}, CumVotes: map[string]int64{}, Props: map[string]PropRec{},
 		PropFunds: map[string]map[string]int64{}, PropFundT: map[string]int64{}, PropVotes: map[string]map[string]VoteRec{},
-		Trackers: map[string]TrackerRec{}, Domains: map[string]DomRec{}, Nonce: map[string]int64{}, Code: map[string]int64{},
+		Trackers: map[string]TrackerRec{}, Domains: map[string]DomRec{}, Nonce: map[string]int64{}, Code: map[string]int64{}, EvmStore: map[string]map[string]string{}, EvmCode: map[string]int64{},
 		Bad: []string{}, Unknown: []string{}, Witness: []string{}, ReqTracker: []string{}, RwYears: []YearRec{},
 		Opts: map[string]json.RawMessage{},
 	}
